@@ -311,7 +311,8 @@ pub fn run(tier: Tier, seed: u64) -> i32 {
             batch(st, 3 << 32, &exprs, &vv, "part 3: ite evaluates only the selected branch");
         } else {
             let mut exprs = vec![];
-            for v in [0i64, 7, 8, 10, 255, 0o777, 0x7fff_ffff_ffff_ffff, 1 << 32] {
+            // incl. values whose hex / binary spelling starts with a letter that is also a radix marker
+            for v in [0i64, 7, 8, 10, 11, 0xb0, 0xB4, 0xBEEF, 0xbb, 0xB, 255, 0o777, 0x7fff_ffff_ffff_ffff, 1 << 32, 0x0bad_f00d_dead_beef] {
                 for r in RADIXES {
                     exprs.push(Expr::Lit(v, r));
                     exprs.push(bin(BinOp::Add, Expr::Lit(v, r), lit(0)));
